@@ -101,6 +101,7 @@ type Run struct {
 	simTime  int64
 	cleanup  []func()
 	logLines int
+	knownHit string
 	// failNote, if set, may prepend a context marker to violation messages
 	failNote func() string
 }
@@ -152,6 +153,26 @@ func (r *Run) Fail(oracle string, format string, a ...interface{}) {
 	}
 	r.Logf("VIOLATION %s: %s", oracle, msg)
 	panic(violationPanic{&Violation{Prop: r.Prop, Oracle: oracle, Msg: msg, Step: r.cur}})
+}
+
+// Guard runs one independent scenario of a sweep. A violation that matches an
+// open known finding ends that scenario only: it is counted and the sweep goes
+// on, so that one known defect does not hide the rest of the enumeration. Any
+// other violation propagates.
+func (r *Run) Guard(f func()) {
+	defer func() {
+		if x := recover(); x != nil {
+			if vp, ok := x.(violationPanic); ok {
+				if fd := matchFinding(vp.v); fd != nil {
+					r.Count("known." + fd.ID)
+					r.knownHit = fd.ID
+					return
+				}
+			}
+			panic(x)
+		}
+	}()
+	f()
 }
 
 // Bug reports trouble in the harness itself.
@@ -281,6 +302,9 @@ func execute(p *Property, t *Tape, verbose bool) (res *Result) {
 		res.SimSteps = r.simSteps
 		res.SimTimeMs = r.simTime
 		res.Sample = r.sample
+		if res.Known == "" {
+			res.Known = r.knownHit
+		}
 	}
 	func() {
 		defer func() {
